@@ -43,7 +43,8 @@ def build_trees(srcs):
         except Exception:
             root = fst.FST(src, 'exec')
         nodes = list(root.walk(True))
-        one, slc, tup = [], [], []
+        one, slc, tup, psrc = [], [], [], []
+        ix = {id(f): i for i, f in enumerate(nodes)}
         for i, f in enumerate(nodes):
             cls = f.a.__class__
             for fld in cls._fields:
@@ -54,7 +55,15 @@ def build_trees(srcs):
                     slc.append((i, fld))
             if cls is ast.Tuple:
                 tup.append(i)
-        out.append((root, nodes, one, slc, tup))
+            if isinstance(f.a, ast.stmt) and f.loc is not None:
+                # FST.put_src(action='reparse') registers the node found by find_contains_loc (or the root)
+                try:
+                    par = root.find_contains_loc(*f.loc, True) or root
+                except Exception:
+                    par = None
+                if par is not None and id(par) in ix:
+                    psrc.append((i, ix[id(par)]))
+        out.append((root, nodes, one, slc, tup, psrc))
     return out
 
 
@@ -99,6 +108,14 @@ class HistGen:
         if k == 'raise':
             c = r.random() < 0.5
             return self.mk(['raise', c], cls=r.choice(['node', 'syntax', 'notimpl']) if c else r.choice(['plain', 'value', 'key']))
+        if k == 'with' and r.random() < 0.18:
+            # the same `with parent._modifying(False, True)` reached through the real FST.put_src(action='reparse')
+            cands = [(ri, si, pi) for ri, t in enumerate(self.trees) for si, pi in t[5]]
+            if cur is not None and r.random() < 0.5:
+                cands = [c for c in cands if c[0] == cur[0]] or cands
+            if cands:
+                ri, si, pi = r.choice(cands)
+                return self.mk(['with', ri, pi, True, False, self.body(d, (ri, pi))], via='put_src', self_idx=si)
         if k in ('with', 'with0'):
             ri, ni = self.node(cur)
             raw = r.choice([False, False, True, None])
@@ -185,7 +202,7 @@ class Runner:
         runner = self
         self._saved = (M.enter, M.success, M.fail, dict(self.p1._PUT_ONE_HANDLERS), self.p1._put_one_raw,
                        dict(self.ps._PUT_SLICE_HANDLERS), self.ps._put_slice_raw, self.fst.FST.pars,
-                       self.fst.FST._unparenthesize_grouping, self.fst.FST._undelimit_node)
+                       self.fst.FST._unparenthesize_grouping, self.fst.FST._undelimit_node, self.fst.FST._reparse_raw)
         o_enter, o_success, o_fail = M.enter, M.success, M.fail
 
         def enter(self):
@@ -247,13 +264,19 @@ class Runner:
         def undelimit(self, *a, **k):
             runner.run_items(runner.stack[-1]['b2'])
 
+        def reparse_raw(self, code, ln, col, end_ln, end_col):
+            runner.run_items(runner.stack[-1]['reparse'])
+            return end_ln, end_col
+
         self.fst.FST.pars = pars
         self.fst.FST._unparenthesize_grouping = unpar_grouping
         self.fst.FST._undelimit_node = undelimit
+        self.fst.FST._reparse_raw = reparse_raw
 
     def uninstall(self):
         M = self.core._Modifying
-        (M.enter, M.success, M.fail, one, one_raw, slc, slc_raw, pars, ug, ud) = self._saved
+        (M.enter, M.success, M.fail, one, one_raw, slc, slc_raw, pars, ug, ud, rr) = self._saved
+        self.fst.FST._reparse_raw = rr
         self.p1._PUT_ONE_HANDLERS.clear()
         self.p1._PUT_ONE_HANDLERS.update(one)
         self.p1._put_one_raw = one_raw
@@ -277,6 +300,14 @@ class Runner:
             raise {'node': self.fst.NodeError, 'syntax': SyntaxError, 'notimpl': NotImplementedError, 'plain': PlainExc,
                    'value': ValueError, 'key': KeyError}[cls]('c12 user exception')
         if k == 'with':
+            if info.get('via') == 'put_src':
+                stmt = self.trees[it[1]][1][info['self_idx']]
+                self.stack.append({'reparse': it[5]})
+                try:
+                    stmt.put_src('c12src', *stmt.loc)       # action='reparse' is the default
+                finally:
+                    self.stack.pop()
+                return
             node = self.trees[it[1]][1][it[2]]
             raw = info.get('raw', it[3])
             with node._modifying(info.get('field', False), raw, force=it[4]):
